@@ -46,7 +46,9 @@ def worlds(tier):
                       havoc=dict(hv, lookahead="sym", max_unplaced=0, first_pool_only=True), tasks=small(("A", "B", "C"))))
         ws.append(w.W(f"probe{k}-cond2-EDF", w.fixed_times(w.cond2()), w.C1, "EDF", split=7, weight=30, c18_probe_at=k, tasks=small(("C", "a", "b", "J"))))
     if tier == "thorough":
-        for bp in ("WORST_CASE", "BEST_CASE", "MAXIMUM", "RANDOM"):
+        # RANDOM prediction is left out here: every frontier query draws afresh, so two queries with different horizons are not comparable
+        # (the monotonicity clauses presuppose one prediction); it is exercised without the relational probe in C07
+        for bp in ("WORST_CASE", "BEST_CASE", "MAXIMUM"):
             ws.append(w.W(f"probe2-cond-uneven-{bp}", w.fixed_times(w.cond_uneven()), w.C2, "EDF", split=8, weight=100, c18_probe_at=2, branch_policy=bp,
                           tasks=small(("C", "a", "a2", "b", "J"))))
         ws += [
